@@ -410,7 +410,10 @@ def offline(ctx, results):
     if not doc_files:
         return out
     shards = []
-    for v in ctx.consumers:
+    # the producers already run full histories on 3.7-3.10; the JSON-only phase adds the hosts that cannot build code
+    # objects (3.11+) and, in the thorough tier, every other interpreter as a cross-version consumer as well
+    json_hosts = [v for v in ctx.consumers if v not in ctx.producers or ctx.tier == "thorough" or v == ctx.producers[0]]
+    for v in json_hosts:
         k = 2 if v in ctx.producers else 4
         for i in range(k):
             part = doc_files[i::k]
@@ -437,5 +440,5 @@ def offline(ctx, results):
         if r["status"] != "ok" or not got:
             out["worker_problems"].append({"shard": r["idx"], "interp": r["interp"], "status": r["status"], "label": r["label"], "stderr": r["stderr"][-1500:]})
     out["distinct"] = sorted(distinct)
-    out["extra"]["json_only_consumers"] = ctx.consumers
+    out["extra"]["json_only_consumers"] = json_hosts
     return out
